@@ -305,6 +305,11 @@ Fixpoint run_ops1 (fixed : bool) (base : Divider) (fuel : nat) (known : list nat
         Z.of_nat (length seg)] ++ flat_map enc_call seg ++ enc_consumed_ids s1 known1 ++
         enc_snapshot (Prio1.prios s1) (Prio1.actual s1) (Prio1.strategic s1) ++ rest, smf)
   end.
+Fixpoint span6 (l : list (Z * Z * Z * Z)) : list (Z * Z * Z * Z) * list (Z * Z * Z * Z) :=
+  match l with
+  | (6, a, b, c) :: r => let '(x, y) := span6 r in ((6, a, b, c) :: x, y)
+  | _ => ([], l)
+  end.
 Definition run_prio1 (args : list Z) : list Z :=
   match args with
   | kind :: h :: fuel :: ocap :: fixed :: r =>
@@ -314,9 +319,18 @@ Definition run_prio1 (args : list Z) : list Z :=
       let cfg := map (fun x => (Z.to_N (fst x), Z.to_nat (snd x))) (pairs pc) in
       let base := divider_of kind in
       let fx := negb (fixed =? 0) in
-      let s0 := Prio1.init_state (fun _ => base) cfg (Z.to_N h) (fun ch => Nat.ltb ch 1000) (Z.to_N ocap) in
+      let s00 := Prio1.init_state (fun _ => base) cfg (Z.to_N h) (fun ch => Nat.ltb ch 1000) (Z.to_N ocap) in
+      (* leading operations with code 6: items written (by writers that block as needed) before New is called *)
+      let '(pre, script) := span6 (quads ops) in
+      let '(s0, nxt) := fold_left (fun (acc : Prio1.st * N) (q : Z * Z * Z * Z) =>
+                           let '(_, a, _, _) := q in
+                           match Prio1.env_step (fst acc) (Prio1.Put (Z.to_nat a) (snd acc)) with
+                           | Some s' => (s', (snd acc + 1)%N)
+                           | None => acc
+                           end) pre (s00, 1%N) in
       let '(s1, amb0) := Prio1Sim.sched_run fx (fun _ => base) (Z.to_nat fuel) false None false s0 in
-      let '(out, smf) := run_ops1 fx base (Z.to_nat fuel) (fold_right insert_nat [] (map snd cfg)) (Prio1Sim.mkPsim s1 [] 1 None amb0 (map fst cfg)) (quads ops) in
+      let known0 := fold_right insert_nat (fold_right insert_nat [] (map snd cfg)) (map (fun q : Z * Z * Z * Z => let '(_, a, _, _) := q in Z.to_nat a) pre) in
+      let '(out, smf) := run_ops1 fx base (Z.to_nat fuel) known0 (Prio1Sim.mkPsim s1 [] nxt None amb0 (map fst cfg)) script in
       let fin := match Prio1.pcs (Prio1Sim.ps_st smf) with
                  | Prio1.Done None => [1; 0]
                  | Prio1.Done (Some (Prio1.EDiv DividerBad)) => [1; 1]
